@@ -1,35 +1,35 @@
 ------------------------------ MODULE MC_Wide ------------------------------
-(* Model-checks Wide.tla against TLC's native integers on a range where both apply. *)
+(* Model-checks Wide.tla against TLC's native integers on vA range where both apply. *)
 EXTENDS Wide, TLC
-VARIABLES a, b, ph
+VARIABLES vA, vB, vPh
 Rng == (-1060..-940) \cup (-60..60) \cup (940..1060)
 Bs == Rng
 Big == {-2147483647 - 1, -2147483647, -2147483000, -1000000000, -999999999, -1000001, -1000000, -999999,
         999999, 1000000, 1000001, 999999999, 1000000000, 2147483000, 2147483646, 2147483647}
-Init == a = 0 /\ b = 0 /\ ph = 0
-Next == \/ ph = 0 /\ ph' = 1 /\ a' \in Rng \cup Big /\ b' = 0
-        \/ ph = 1 /\ ph' = 2 /\ a' = a /\ b' \in Bs
+Init == vA = 0 /\ vB = 0 /\ vPh = 0
+Next == \/ vPh = 0 /\ vPh' = 1 /\ vA' \in Rng \cup Big /\ vB' = 0
+        \/ vPh = 1 /\ vPh' = 2 /\ vA' = vA /\ vB' \in Bs
 Ks == {1, 2, 7, 999, 1000, 1001, 86400, 146097, 604800, 2147483}
 Sm(x) == x \in Rng
-OK == /\ IsWide(WInt(a)) /\ IsWide(WInt(b))
-      /\ WToInt(WInt(a)) = a
-      /\ WFitsI32(WInt(a))
-      /\ (Sm(a) => /\ WToInt(WAdd(WInt(a), WInt(b))) = a + b
-                   /\ WToInt(WSub(WInt(a), WInt(b))) = a - b
-                   /\ WToInt(WMulSmall(WInt(a), b + 1060)) = a * (b + 1060)
-                   /\ IsWide(WAdd(WInt(a), WInt(b))) /\ IsWide(WSub(WInt(a), WInt(b))))
-      /\ WCmp(WInt(a), WInt(b)) = (IF a < b THEN -1 ELSE IF a = b THEN 0 ELSE 1)
-      /\ WNeg(WNeg(WInt(a))) = WInt(a)
-      /\ \A k \in Ks : LET qr == WDivMod(WInt(a), k) IN
-            /\ IsWide(qr.q) /\ WToInt(qr.q) = a \div k /\ qr.r = a % k
-      /\ LET w == WAdd(WShl3(WInt(a)), WInt(b + 1060)) qr == WDivMod1e9(w) IN
-            /\ IsWide(w) /\ qr.q = WInt(a) /\ qr.r = b + 1060
-      /\ LET w == WSub(WShl3(WInt(a)), WInt(b + 1061)) qr == WDivMod1e9(w) IN
-            /\ IsWide(w) /\ qr.q = WSub(WInt(a), WInt(1)) /\ qr.r = 1000000000 - (b + 1061)
-      \* beyond 32 bits: (a * 2^31-ish) round trips through division
-      /\ LET w == WAdd(WMulSmall(WMulSmall(WInt(a), 146097), 86400), WInt(b + 1060))
+OK == /\ IsWide(WInt(vA)) /\ IsWide(WInt(vB))
+      /\ WToInt(WInt(vA)) = vA
+      /\ WFitsI32(WInt(vA))
+      /\ (Sm(vA) => /\ WToInt(WAdd(WInt(vA), WInt(vB))) = vA + vB
+                   /\ WToInt(WSub(WInt(vA), WInt(vB))) = vA - vB
+                   /\ WToInt(WMulSmall(WInt(vA), vB + 1060)) = vA * (vB + 1060)
+                   /\ IsWide(WAdd(WInt(vA), WInt(vB))) /\ IsWide(WSub(WInt(vA), WInt(vB))))
+      /\ WCmp(WInt(vA), WInt(vB)) = (IF vA < vB THEN -1 ELSE IF vA = vB THEN 0 ELSE 1)
+      /\ WNeg(WNeg(WInt(vA))) = WInt(vA)
+      /\ \A k \in Ks : LET qr == WDivMod(WInt(vA), k) IN
+            /\ IsWide(qr.q) /\ WToInt(qr.q) = vA \div k /\ qr.r = vA % k
+      /\ LET w == WAdd(WShl3(WInt(vA)), WInt(vB + 1060)) qr == WDivMod1e9(w) IN
+            /\ IsWide(w) /\ qr.q = WInt(vA) /\ qr.r = vB + 1060
+      /\ LET w == WSub(WShl3(WInt(vA)), WInt(vB + 1061)) qr == WDivMod1e9(w) IN
+            /\ IsWide(w) /\ qr.q = WSub(WInt(vA), WInt(1)) /\ qr.r = 1000000000 - (vB + 1061)
+      \* beyond 32 bits: (vA * 2^31-ish) round trips through division
+      /\ LET w == WAdd(WMulSmall(WMulSmall(WInt(vA), 146097), 86400), WInt(vB + 1060))
              q1 == WDivMod(w, 86400) q2 == WDivMod(q1.q, 146097)
-         IN /\ IsWide(w) /\ q1.r = b + 1060 /\ q2.r = 0 /\ q2.q = WInt(a)
+         IN /\ IsWide(w) /\ q1.r = vB + 1060 /\ q2.r = 0 /\ q2.q = WInt(vA)
       /\ WFitsI64(WMinI64) /\ WFitsI64(WMaxI64) /\ ~WFitsI64(WAddInt(WMaxI64, 1)) /\ ~WFitsI64(WAddInt(WMinI64, -1))
-Spec == Init /\ [][Next]_<<a, b, ph>>
+Spec == Init /\ [][Next]_<<vA, vB, vPh>>
 =============================================================================
